@@ -309,6 +309,16 @@ pub fn run_locs(tier: &str, seed: u64, out: &mut Out) {
         let src = if i % 2 == 0 { decorate(&mut rng, &src) } else { src };
         out.raw(&analyse_source(&format!("g{}", i), "clean", &src).to_string());
     }
+    // static-string values whose source spelling contains a bare ampersand or a double quote inside single quotes
+    // (what the printer has to escape): names, keys, paths, aliases
+    for (k, src) in ["<view wx:for=\"{{ l }}\" wx:key=\"k&v\">{{ item }}</view>",
+                     "<template name='say \"hi\"'>t</template><template is='say \"hi\"'/>",
+                     "<include src=\"../a&b/c\"/><import src='x&y.wxml'/>",
+                     "<wxs module=\"m\" src=\"../u&v.wxs\"/>{{ m.a }}",
+                     "<c generic:g=\"p&q\" extra-attr:e=\"r&s\"><v slot:x=\"al\">{{ al }}</v></c>",
+                     "<view wx:for=\"{{ l }}\" wx:for-item=\"it\" wx:for-index=\"ix\" wx:key='a\"b'>{{ it }}{{ ix }}</view>"].iter().enumerate() {
+        out.raw(&analyse_source(&format!("s{}", k), "clean", src).to_string());
+    }
     // fuzzed / malformed inputs: only location validity is required
     let bad = crate::total::inputs(if tier == "thorough" { "quick" } else { "quick" }, seed);
     let step = if tier == "thorough" { 1 } else { 4 };
